@@ -24,6 +24,9 @@ CHECKS = {
  "C17": dict(level="exploration", technique="exhaustive enumeration of message values at field extremes, of all 256 values of every code byte, of 2-3 message streams and of all short endpoint strings",
    text="Every TCPCLv4 message type with each field at 0/1/max and lengths on the CBOR/width boundaries, all streams of 2-3 messages from a 14-message alphabet (exact consumption per message), all 256 values of every one-byte code/magic/version field (valid set accepted, rest rejected), discovery announcements over all 256 CLA type codes, WebSocket-agent messages, all 65536 BBC fragment headers, bundle IDs, creation timestamps, all 81 status-item combinations, all 256 administrative-record type codes; endpoint URIs: every string up to length 6 (quick) / 7 (thorough) over a 13-symbol grammar alphabet plus near-misses, and structure->text->structure for ipn/dtn endpoints over the width boundaries. Exhaustive within these bounds.",
    note="Trusted: bridge files exposing unexported codecs (mc/bridge, no logic). 'Unknown reason codes rejected' applied to TCPCLv4 code bytes only (closed sets).", design="3/C17"),
+ "C16": dict(level="model_checking", technique="explicit-state BFS of a Go reference state machine; every model trace replayed step by step against the real cla.Manager",
+   text="A reference state machine of the adapter registry (registered instance, active, retry budget, closed) is explored breadth-first to its fixpoint for permanent/non-permanent adapters and initial budgets 0..3, plus every enabled event sequence up to depth 3 (quick) / 4 (thorough) without state merging. Every trace is replayed on a fresh real Manager with scripted adapters under the virtual clock in worker processes (a crash of the manager goroutine is attributed to the trace); after each step Sender()/Receiver() and the Start/Close call log must equal the reference, Close must return and stop every started adapter exactly once.",
+   note="Trusted: vtime shim delivering the manager's ticker ticks, two-line cla bridge (inject into inChnl, set queueTtl). Events after Close are not explored. The reference machine mirrors the implementation where the statement is silent (re-registering an inactive address re-tries the stored instance).", design="3/C16"),
 }
 NA_REASON = "check not built yet in this round (planned in DESIGN.md section 3)"
 
